@@ -16,6 +16,7 @@ import (
 	"sync"
 	"time"
 
+	"calcsa/absint"
 	"calcsa/load"
 	"calcsa/oblig"
 )
@@ -129,6 +130,7 @@ func Run(cfg Config, ids []string) int {
 		}
 	}
 
+	absint.DefaultModule = load.ModPath
 	prog, err := load.Load(cfg.Repo)
 	if err != nil {
 		// a tree that does not load cannot be shown to satisfy anything
@@ -347,6 +349,7 @@ func RunEngine(cfg Config, name string) int {
 		fmt.Println("unknown engine", name)
 		return 2
 	}
+	absint.DefaultModule = load.ModPath
 	prog, err := load.Load(cfg.Repo)
 	if err != nil {
 		fmt.Println(err)
